@@ -2,7 +2,7 @@
 
 One instance; a plan is a history of steps over a small world of cells 1..4: definitions (solution, equilibrium phases,
 exchanger, surface with implicit / explicit diffuse layer, fixed-pressure or fixed-volume gas phase, solid solution, kinetic
-reactant), batch reactions  USE ... / REACTION / SAVE ... n,  RUN_CELLS with a time step, MIX, and chaining of one step's
+reactant; one plan in four on pitzer.dat, whose solver loop model_pitzer is a separate copy), batch reactions  USE ... / REACTION / SAVE ... n,  RUN_CELLS with a time step, MIX, and chaining of one step's
 products into the next.  DUMP -all is read before and after every step by an independent RAW reader; a formula parser turns
 phase, gas, solid-solution and kinetic formulas (a hand table transcribed from phreeqc.dat and the plan itself, not the
 engine) into element vectors.
@@ -13,7 +13,8 @@ counted); every entity the step did not name is textually unchanged; no amount i
 
 Fault configurations: (a) the solver's retry ladder is forced through the guarded hook H1 (a converged attempt is reported as
 failed / an attempt is skipped, for the first 1-6 attempts of a seeded subset of solves), (b) KNOBS -iterations is drawn small so
-that first attempts genuinely fail and later ladder rungs converge.  Same ledger: a converged retry is a completed calculation."""
+that first attempts genuinely fail and later ladder rungs converge, (c) random legal KNOBS (step sizes, iteration limit,
+tolerances, diagonal scaling, delayed mass-of-water equation, numerical derivatives) drawn per run.  Same ledger: a converged retry is a completed calculation."""
 import hashlib, json, math, re
 from common import *
 from runner import Report, crash_violation
@@ -23,7 +24,7 @@ PROP = "C02"
 LEVEL = "exploration"
 VARIANTS = ["asan"]
 RULE = ("histories of 3-10 steps over cells 1..4 with seeded reactant sets, amounts, step counts, incremental or cumulative steps and SAVE/USE chaining; every third plan "
-        "forces the retry ladder through hook H1 (modes post and pre), every fourth draws KNOBS -iterations from {8..20}. Non-trivial = a step with a non-zero change of at "
+        "forces the retry ladder through hook H1 (modes post and pre), every fourth draws KNOBS -iterations from {8..20}, every other fourth draws a whole set of legal KNOBS; one plan in four runs on pitzer.dat. Non-trivial = a step with a non-zero change of at "
         "least one element inventory of an entity; distinct = distinct (reactant kinds in the stepped cell, step kind, chained?, fault configuration).")
 COMPONENTS = {"real": "whole IPhreeqc library from /repo's working tree (ASan+UBSan) incl. the solver's retry ladder (set_and_run_wrapper)",
               "stub": "hook H1 callback (guarded by IPHREEQC_VERIF) deciding which attempts are reported as failed; clock() frozen"}
@@ -143,6 +144,10 @@ def inventory(ent):
     return inv
 
 
+# database profiles: which gases / solid-solution end members / reactants exist.  pitzer.dat has no N, no redox couple and no
+# Strontianite; its solver loop (model_pitzer) is a separate copy of model()
+DBPROF = {"phreeqc": {"file": PHREEQC_DAT, "ss": ("Calcite", "Strontianite"), "n2": True, "o2": True, "drop": ()},
+          "pitzer": {"file": os.path.join(DBDIR, "pitzer.dat"), "ss": ("Gypsum", "Celestite"), "n2": False, "o2": False, "drop": ("O2", "CH2O")}}
 STATE_KINDS = ["solution", "equilibrium_phases", "exchange", "surface", "gas_phase", "solid_solutions", "kinetics"]
 SAVABLE = ["equilibrium_phases", "exchange", "surface", "gas_phase", "solid_solutions"]
 REACTANTS = {"NaCl": "NaCl", "CaCl2": "CaCl2", "HCl": "HCl", "NaOH": "NaOH", "CO2": "CO2", "CaCO3": "CaCO3", "SrCl2": "SrCl2", "Na2SO4": "Na2SO4", "H2O": "H2O", "MgCl2": "MgCl2", "O2": "O2", "CH2O": "CH2O"}
@@ -177,7 +182,8 @@ def gen_cell(rng, n):
     return d
 
 
-def cell_text(c):
+def cell_text(c, db="phreeqc"):
+    prof = DBPROF[db]
     n = c["n"]
     s = c["sol"]
     t = "SOLUTION %d\n temp 25\n pH %s\n -water %s\n" % (n, s["pH"], s["water"])
@@ -192,17 +198,18 @@ def cell_text(c):
     if "exchange" in k:
         t += "EXCHANGE %d\n X %s\n -equilibrate %d\n" % (n, k["exchange"], n)
     if "surface" in k:
-        opt = {"plain": "", "diffuse": " -diffuse_layer 1e-8\n", "donnan": " -donnan 1e-8\n", "no_edl": " -no_edl\n"}[k["surface"]]
+        # the explicit diffuse-layer integration does not converge with the Pitzer model ("Did not converge on g"): Donnan there
+        opt = {"plain": "", "diffuse": " -diffuse_layer 1e-8\n" if db != "pitzer" else " -donnan 1e-8\n", "donnan": " -donnan 1e-8\n", "no_edl": " -no_edl\n"}[k["surface"]]
         t += "SURFACE %d\n%s Hfo_w 1e-3 600 1\n Hfo_s 5e-5\n -equilibrate %d\n" % (n, opt, n)
     if "gas_phase" in k:
         g = k["gas_phase"]
         t += "GAS_PHASE %d\n -%s\n -pressure 1\n -volume 1\n CO2(g) %s\n" % (n, g["type"], g["co2"])
-        if g["n2"]:
+        if g["n2"] and prof["n2"]:
             t += " N2(g) %s\n" % g["n2"]
-        if g["o2"]:
+        if g["o2"] and prof["o2"]:
             t += " O2(g) %s\n" % g["o2"]
     if "solid_solutions" in k:
-        t += "SOLID_SOLUTIONS %d\n CaSr\n -comp Calcite %s\n -comp Strontianite %s\n" % (n, k["solid_solutions"][0], k["solid_solutions"][1])
+        t += "SOLID_SOLUTIONS %d\n CaSr\n -comp %s %s\n -comp %s %s\n" % (n, prof["ss"][0], k["solid_solutions"][0], prof["ss"][1], k["solid_solutions"][1])
     if "kinetics" in k:
         q = k["kinetics"]
         t += "KINETICS %d\n %s\n -formula %s\n -m0 %s\n -parms %s\n -steps %s\n -cvode %s\n" % (n, q["rate"], " ".join("%s %s" % (a, b) for a, b in q["formula"]), q["m0"], q["parm"], " ".join(str(x) for x in q["steps"]), "true" if q["cvode"] else "false")
@@ -249,10 +256,17 @@ def generate(rng, tier, index):
         fault = {"kind": "knobs", "iterations": rng.choice([100, 150, 200, 400, 800]), "step_size": rng.choice([100, 100, 10, 5, 2, 1000]), "pe_step_size": rng.choice([10, 10, 5, 2, 1.5]),
                  "diagonal_scale": rng.chance(30), "tolerance": rng.choice([1e-15, 1e-15, 1e-14, 1e-16]), "convergence_tolerance": rng.choice([1e-8, 1e-8, 1e-10, 1e-12]),
                  "delay_mass_water": rng.chance(20), "numerical_derivatives": rng.chance(15)}
-    return {"prop": PROP, "cells": cells, "steps": steps, "fault": fault}
+    plan = {"prop": PROP, "cells": cells, "steps": steps, "fault": fault}
+    if rng.chance(25):
+        plan["db"] = "pitzer"
+        for st in steps:
+            if st["op"] == "react" and st["rx"]:
+                st["rx"]["names"] = [nc for nc in st["rx"]["names"] if nc[0] not in DBPROF["pitzer"]["drop"]] or [["NaCl", 1]]
+    return plan
 
 
-def step_text(st, present):
+def step_text(st, present, db="phreeqc"):
+    prof = DBPROF[db]
     """present: set of (kind, n) existing before the step"""
     k = st["op"]
     if k == "react":
@@ -266,13 +280,13 @@ def step_text(st, present):
             t += "USE %s none\n" % ex["kind"]       # a reactant defined in this simulation would otherwise take part in the step
         if ex:
             if ex["kind"] == "gas_phase":
-                t = "GAS_PHASE %d\n -fixed_volume\n -volume 1\n%s CO2(g) 0.%d\n N2(g) 0.%d\n" % (ex["n"], " -pressure 60\n" if ex["pr"] else "", ex["v"], ex["v"]) + t
+                t = "GAS_PHASE %d\n -fixed_volume\n -volume 1\n%s CO2(g) 0.%d\n%s" % (ex["n"], " -pressure 60\n" if ex["pr"] else "", ex["v"], (" N2(g) 0.%d\n" % ex["v"]) if prof["n2"] else "") + t
             elif ex["kind"] == "equilibrium_phases":
                 t = "EQUILIBRIUM_PHASES %d\n Calcite 0 0.%d\n" % (ex["n"], ex["v"]) + t
             elif ex["kind"] == "exchange":
                 t = "EXCHANGE %d\n NaX 0.0%d\n" % (ex["n"], ex["v"]) + t
             else:
-                t = "SOLID_SOLUTIONS %d\n CaSr\n -comp Calcite 0.0%d\n -comp Strontianite 0.00%d\n" % (ex["n"], ex["v"], ex["v"]) + t
+                t = "SOLID_SOLUTIONS %d\n CaSr\n -comp %s 0.0%d\n -comp %s 0.00%d\n" % (ex["n"], prof["ss"][0], ex["v"], prof["ss"][1], ex["v"]) + t
         rx = st["rx"]
         if rx:
             t += "REACTION 9\n" + "".join(" %s %s\n" % (nm, cf) for nm, cf in rx["names"])
@@ -302,7 +316,9 @@ def step_text(st, present):
 def check_plan(ctx, plan):
     rep = Report()
     f = plan["fault"]
-    head = [["create", "1", "sim"], call("cpp", "s1", "SetDumpStringOn", 1), call("cpp", "s1", "LoadDatabase", PHREEQC_DAT), call("cpp", "s1", "RunString", RATES)]
+    db = plan.get("db", "phreeqc")
+    rep.count("db:" + db)
+    head = [["create", "1", "sim"], call("cpp", "s1", "SetDumpStringOn", 1), call("cpp", "s1", "LoadDatabase", DBPROF[db]["file"]), call("cpp", "s1", "RunString", RATES)]
     if f and f["kind"] == "itmax":
         head.append(call("cpp", "s1", "RunString", "KNOBS\n -iterations %d\nEND\n" % f["iterations"]))
     if f and f["kind"] == "knobs":
@@ -310,7 +326,7 @@ def check_plan(ctx, plan):
         head.append(call("cpp", "s1", "RunString", "KNOBS\n -iterations %d\n -step_size %s\n -pe_step_size %s\n -diagonal_scale %s\n -tolerance %s\n -convergence_tolerance %s\n -delay_mass_water %s\n -numerical_derivatives %s\nEND\n"
                          % (f["iterations"], f["step_size"], f["pe_step_size"], tf(f["diagonal_scale"]), f["tolerance"], f["convergence_tolerance"], tf(f["delay_mass_water"]), tf(f["numerical_derivatives"]))))
     for c in plan["cells"]:
-        head.append(call("cpp", "s1", "RunString", cell_text(c)))
+        head.append(call("cpp", "s1", "RunString", cell_text(c, db)))
     # the set of existing keys is needed to write the steps: it is tracked from the plan (definitions + saves), and verified against the dump
     present = set()
     for c in plan["cells"]:
@@ -323,7 +339,7 @@ def check_plan(ctx, plan):
     for si, st in enumerate(plan["steps"]):
         if ("solution", st["a"]) not in present or (st["op"] == "mix" and ("solution", st["b"]) not in present):
             continue
-        txt = step_text(st, present)
+        txt = step_text(st, present, db)
         if txt is None:
             continue
         pre = set(present)
@@ -484,7 +500,7 @@ def check_plan(ctx, plan):
             changed = True
         if changed:
             rep.count("steps_with_change")
-            dkey.append("%s|%s|%s" % (k, ",".join(sorted(set(key[0] for _, key in src))), f["kind"] if f else "-"))
+            dkey.append("%s|%s|%s|%s" % (k, ",".join(sorted(set(key[0] for _, key in src))), f["kind"] if f else "-", db))
         before = after
     for x in set(dkey):
         rep.distinct.append(hashlib.sha1(x.encode()).hexdigest()[:10])
